@@ -4,6 +4,7 @@ import (
 	"encoding/json"
 	"fmt"
 	"sort"
+	"strconv"
 	"strings"
 
 	"verifharness/vh"
@@ -17,6 +18,7 @@ type Rec struct {
 	A, B, C string
 	Nest    bool   // xml/json: field a contains a nested a
 	Attr    string // xml: attribute k on the record element (which has element children)
+	Attr2   string // xml: a second attribute j (two attributes: a Go map in idr.JSONify2)
 }
 
 // Env is the part of an input around the records; fixed within one algebra case.
@@ -76,11 +78,18 @@ func (f Fmt) RenderRec(r Rec) string {
 		if r.Nest {
 			a = `{"t":` + jstr(r.A) + `,"a":"in"}`
 		}
-		return fmt.Sprintf(`{"a":%s,"b":%s,"c":%s}`, a, jstr(r.B), jstr(r.C))
+		b := jstr(r.B)
+		if _, err := strconv.Atoi(r.B); err == nil && len(r.B)%2 == 0 {
+			b = r.B // a JSON number (typed value node) instead of a string
+		}
+		return fmt.Sprintf(`{"a":%s,"b":%s,"c":%s,"z":[true,null,1.5]}`, a, b, jstr(r.C))
 	case "xml":
 		attr := ""
 		if r.Attr != "" {
 			attr = ` k="` + xmlEsc(r.Attr) + `"`
+		}
+		if r.Attr2 != "" {
+			attr += ` j="` + xmlEsc(r.Attr2) + `"`
 		}
 		a := xmlEsc(r.A)
 		if r.Nest {
@@ -170,6 +179,9 @@ func GenRec(r *vh.Rng, f Fmt, ok bool) Rec {
 	}
 	if f.Name == "xml" && r.Chance(0.4) {
 		rec.Attr = r.PickStr("1", "2", "k", "v w")
+		if r.Chance(0.5) {
+			rec.Attr2 = r.PickStr("7", "8", "jj")
+		}
 	}
 	return rec
 }
@@ -323,6 +335,20 @@ func (f Fmt) SchemaWith(r *vh.Rng, must []string, extra []string, env Env) (stri
 	}
 	s += `, "transform_declarations": ` + decls + `}`
 	return s, feats
+}
+
+// AncestorField is a FINAL_OUTPUT field that evaluates a child declaration AT an ancestor of the
+// record (a node that keeps its ID over the whole transform) and from there addresses the
+// record's own data: under streaming the ancestor has exactly one target child, the current
+// record.  Visible if the previous record is not released or a result memo outlives a record.
+func (f Fmt) AncestorField() string {
+	switch f.Name {
+	case "xml":
+		return `"up": {"xpath":"..","object":{"first":{"xpath":"n/a"},"cnt":{"xpath":"n/c"}}}`
+	case "json":
+		return `"up": {"xpath":"..","object":{"first":{"xpath":"*/a"},"cnt":{"xpath":"*/c"}}}`
+	}
+	return ""
 }
 
 // CtxField is a FINAL_OUTPUT field addressing the non-target context (xml/json with Env.Header).
